@@ -553,6 +553,35 @@ func ruleKeyArms(r *Report) {
 				}
 			}
 		}
+		// … and not only when the previous key equals the new one (a removal on the equal edge of a
+		// comparison of the two is the test inverted: the key that differs stays)
+		for _, d := range dels {
+			blk := d.Ins.Block()
+			if d.Inner != nil {
+				blk = d.Inner.Block()
+			}
+			isStored := func(v ssa.Value) bool {
+				ld, ok := unwrapCopy(v).(*ssa.UnOp)
+				if !ok || ld.Op != token.MUL {
+					return false
+				}
+				_, isIA := ld.X.(*ssa.IndexAddr)
+				return isIA
+			}
+			for _, want := range []bool{true, false} {
+				want := want
+				if edgeGuarded(blk, func(c ssa.Value) (bool, bool) {
+					bo, isB := c.(*ssa.BinOp)
+					if !isB || (bo.Op != token.EQL && bo.Op != token.NEQ) || !(isStored(bo.X) || isStored(bo.Y)) {
+						return false, false
+					}
+					// on which edge are the two equal?
+					return (bo.Op == token.EQL) == want, want
+				}) {
+					rekey = false
+				}
+			}
+		}
 		h.Check(rekey, b.Name+"/Put/rekey", ar.p.Pos(b.Fn.Pos()), "overwriting a key removes the row's previous key from the lookup table", "overwriting the key of a row leaves the previous key in the lookup table: the old key still resolves (to the re-keyed row) and cannot be inserted again")
 		// … but only when the row really held a key: the value array of a deleted row is stale, so
 		// the removal must be guarded by the presence bit of the same row, tested before this
